@@ -438,8 +438,15 @@ def check(ctx: Ctx, col: Collector, tier: str) -> None:
         else:
             # a default that is no literal is not reproduced: 'no default' (today) and UnknownValue (what C20.DEFAULT-SOURCE asks for) both keep literal defaults exact
             unreproduced = name not in ("NameExpr:None", "NameExpr:True", "NameExpr:False", "IntExpr", "FloatExpr")
-            for v in vals:
-                if unreproduced and isinstance(v, ListV) and len(v.items) == 2 and isinstance(v.items[0], Obj) and v.items[0].cls == "UnknownValue" and v.items[1] == Const(False):
+            for o in outs:
+                if o.kind != "return":
+                    continue
+                v = o.value
+                is_unknown = isinstance(v, ListV) and len(v.items) == 2 and isinstance(v.items[0], Obj) and v.items[0].cls == "UnknownValue" and v.items[1] == Const(False)
+                if unreproduced and is_unknown:
+                    continue
+                # a float literal that overflows is inf: no value JSON or Safe-DS can hold; UnknownValue on exactly the non-finite path is the honest answer
+                if name == "FloatExpr" and is_unknown and any(("isfinite" in k and fv is False) or (("isinf" in k or "isnan" in k) and fv is True) for k, fv in o.facts):
                     continue
                 if not (isinstance(v, ListV) and len(v.items) == 2 and v.items[0] == want[0] and v.items[1] == Const(want[1])):
                     ok = False
